@@ -269,11 +269,19 @@ func (fr *Frame) makeInterface(i *ssa.MakeInterface) *Val {
 	tag := intLit(int64(fr.eng.typeTag(i.X.Type())))
 	switch i.X.Type().Underlying().(type) {
 	case *types.Pointer:
-		return &Val{t: mkIfc(tag, fr.scalar(x)), sort: sIfc, typ: i.Type()}
+		if x.loc != nil && x.t == "" && !(x.loc.kind == locField && len(x.loc.path) == 0) {
+			// boxed interior pointer: opaque payload, but remember what it points to
+			r := fr.newRef("boxptr")
+			return &Val{t: mkIfc(tag, r), sort: sIfc, typ: i.Type(), boxed: x}
+		}
+		return &Val{t: mkIfc(tag, fr.scalar(x)), sort: sIfc, typ: i.Type(), boxed: x}
 	case *types.Basic:
 		if x.sort == sInt {
 			return &Val{t: mkIfc(tag, x.t), sort: sIfc, typ: i.Type()}
 		}
+	case *types.Slice:
+		r := fr.newRef("box")
+		return &Val{t: mkIfc(tag, r), sort: sIfc, typ: i.Type(), boxed: x}
 	}
 	// boxed non-pointer value: payload is an opaque fresh object
 	r := fr.newRef("box")
